@@ -347,3 +347,19 @@ Proof.
   cbv zeta in E. rewrite E in H.
   destruct r as [x|e0]; inversion H; subst. split; reflexivity.
 Qed.
+
+(* list-offsets v1, every well-formed response (with or without an error code), every cut *)
+Theorem conn_cut_listoffsets st off w k :
+  well_formed AListOffsets 1 w -> fits (enc (resp_ty AListOffsets 1) w) -> closed st = false ->
+  (k < length (frame (wrap32 (corr st + 1)) (enc (resp_ty AListOffsets 1) w)))%nat ->
+  exists e st2 s2,
+    conn_do st (mkOp AListOffsets 1 off) (firstn k (frame (wrap32 (corr st + 1)) (enc (resp_ty AListOffsets 1) w)))
+      = (st2, RErr e, s2) /\ transport e = true /\ closed st2 = true.
+Proof.
+  intros Hwf Hfit Hcl Hk.
+  destruct (wf_listoffsets w Hwf) as (name & part & Hw & Hn & Hp). subst w.
+  destruct (conn_do_listoffsets_frame st off name part [] Hn Hp Hfit Hcl) as (r & E & _).
+  rewrite app_nil_r in E.
+  eapply conn_do_cut; try exact E; try exact Hcl; cbn [op_api]; try discriminate.
+  cbn [length]. lia.
+Qed.
